@@ -16,6 +16,7 @@ func (pdb *pgDb) Dump(ctx context.Context, key []byte) (*db.Dumper, error) {
 	pdb.SetLanguage(nil)
 	lk, err := pdb.ToKey(ctx, key)
 	if err != nil {
+		tx.Rollback(ctx)
 		return nil, err
 	}
 	k := lk.Default
@@ -27,40 +28,53 @@ func (pdb *pgDb) Dump(ctx context.Context, key []byte) (*db.Dumper, error) {
 		tx.Rollback(ctx)
 		return nil, err
 	}
-	defer tx.Commit(ctx)
 
-	if rs.Next() {
+	// the result has to be read to its end before the transaction can be ended (the
+	// connection is busy until then), so the rows are collected here and handed out from memory
+	var rows [][2][]byte
+	for rs.Next() {
 		var kk []byte
 		var vv []byte
 		err = rs.Scan(&kk, &vv)
 		if err != nil {
+			rs.Close()
+			tx.Rollback(ctx)
 			return nil, err
 		}
-		pdb.it = rs
-		pdb.itBase = k
-		kk, err = pdb.DecodeKey(ctx, kk)
-		if err != nil {
-			return nil, err
-		}
-		return db.NewDumper(pdb.dumpFunc).WithClose(pdb.closeFunc).WithFirst(kk, vv), nil
+		rows = append(rows, [2][]byte{kk, vv})
+	}
+	rs.Close()
+	err = rs.Err()
+	if err != nil {
+		tx.Rollback(ctx)
+		return nil, err
+	}
+	err = tx.Commit(ctx)
+	if err != nil {
+		return nil, err
 	}
 
-	return nil, db.NewErrNotFound(k)
+	if len(rows) == 0 {
+		return nil, db.NewErrNotFound(k)
+	}
+	kk, err := pdb.DecodeKey(ctx, rows[0][0])
+	if err != nil {
+		return nil, err
+	}
+	pdb.it = rows[1:]
+	pdb.itBase = k
+	return db.NewDumper(pdb.dumpFunc).WithClose(pdb.closeFunc).WithFirst(kk, rows[0][1]), nil
 }
 
 func (pdb *pgDb) dumpFunc(ctx context.Context) ([]byte, []byte) {
-	var kk []byte
-	var vv []byte
-	if !pdb.it.Next() {
+	if len(pdb.it) == 0 {
 		logg.DebugCtxf(ctx, "no more data in pg iterator")
 		pdb.it = nil
 		pdb.itBase = nil
 		return nil, nil
 	}
-	err := pdb.it.Scan(&kk, &vv)
-	if err != nil {
-		return nil, nil
-	}
+	kk, vv := pdb.it[0][0], pdb.it[0][1]
+	pdb.it = pdb.it[1:]
 	k, err := pdb.DecodeKey(ctx, kk)
 	if err != nil {
 		return nil, nil
@@ -69,9 +83,6 @@ func (pdb *pgDb) dumpFunc(ctx context.Context) ([]byte, []byte) {
 }
 
 func (pdb *pgDb) closeFunc() error {
-	if pdb.it != nil {
-		pdb.it.Close()
-		pdb.it = nil
-	}
+	pdb.it = nil
 	return nil
 }
